@@ -116,7 +116,7 @@ def judge(case, io_, mo):
     if leak and len(pan) > (10 if case['proc'] == 'PAN' else 9):
         ps.append({'kind': 'oracle', 'sig': 'clear-pan-in-dictionary', 'msg': 'the clear PAN appears under %s' % leak})
     if mo is not None and not ps and not mo[0].startswith('UNMODELLED'):
-        if not mo[0].startswith('OK ') or iu.canon_entries(mo[0][3:]) != iu.canon_entries(o[3:]):
+        if not mo[0].startswith('OK ') or iu.canon_entries(mo[0][3:], drop_other=True) != iu.canon_entries(o[3:], drop_other=True):
             ps.append({'kind': 'corr', 'sig': 'loads', 'msg': 'loads differs from model'})
     return ps
 
